@@ -38,8 +38,6 @@ const (
 
 func genSleepS(rt *rapid.T) int64 {
 	switch rapid.IntRange(0, 9).Draw(rt, "sleepclass") {
-	case 0, 8:
-		return 0
 	case 1:
 		return 1
 	case 2:
@@ -54,48 +52,64 @@ func genSleepS(rt *rapid.T) int64 {
 		return int64(rapid.IntRange(1802, 2000).Draw(rt, "secs_past"))
 	case 7:
 		return 3600 * int64(rapid.IntRange(1, 48).Draw(rt, "hours"))
-	default:
+	case 8:
 		return 60 * int64(rapid.IntRange(1, 29).Draw(rt, "minutes"))
+	default:
+		return 0
 	}
 }
 
-func genAmount(rt *rapid.T, label string, budget *uint64) uint32 {
-	var v uint64
+func genAmount(rt *rapid.T, label string) uint32 {
 	switch rapid.IntRange(0, 8).Draw(rt, label+"class") {
-	case 0, 8:
-		v = 0
 	case 1:
-		v = 1
+		return 1
 	case 2:
-		v = 20
+		return 20
 	case 3:
-		v = uint64(rapid.IntRange(2, 100).Draw(rt, label+"small"))
+		return uint32(rapid.IntRange(2, 100).Draw(rt, label+"small"))
 	case 4:
-		v = uint64(rapid.IntRange(101, 1<<20).Draw(rt, label+"mid"))
+		return uint32(rapid.IntRange(101, 1<<20).Draw(rt, label+"mid"))
 	case 5:
-		v = rapid.Uint64Range(1<<20, 1<<30).Draw(rt, label+"big")
+		return uint32(rapid.Uint64Range(1<<20, 1<<30).Draw(rt, label+"big"))
 	case 6:
-		v = rapid.Uint64Range(1<<30, math.MaxUint32).Draw(rt, label+"huge")
+		return uint32(rapid.Uint64Range(1<<30, math.MaxUint32).Draw(rt, label+"huge"))
 	case 7:
-		v = *budget
+		return math.MaxUint32 // "all that is left of the budget" after clamping
+	default:
+		return 0
 	}
-	if v > *budget {
-		v = *budget
+}
+
+func genBanStep(rt *rapid.T) BanStep {
+	return BanStep{Sleep: genSleepS(rt), T: genAmount(rt, "t"), P: genAmount(rt, "p")}
+}
+
+// clampSteps enforces the no-wrap assumption: the sum of all increments of the
+// history stays within c35Budget (later steps get what is left).
+func clampSteps(steps []BanStep) {
+	budget := c35Budget
+	clamp := func(v *uint32) {
+		if uint64(*v) > budget {
+			*v = uint32(budget)
+		}
+		budget -= uint64(*v)
 	}
-	*budget -= v
-	return uint32(v)
+	for i := range steps {
+		clamp(&steps[i].T)
+		clamp(&steps[i].P)
+		if steps[i].Sleep < 0 {
+			steps[i].Sleep = 0
+		}
+	}
 }
 
 func genC35(rt *rapid.T) any {
-	n := rapid.IntRange(1, 24).Draw(rt, "nsteps")
-	p := &C35Plan{}
-	budget := c35Budget
-	for i := 0; i < n; i++ {
-		st := BanStep{Sleep: genSleepS(rt)}
-		st.T = genAmount(rt, "t", &budget)
-		st.P = genAmount(rt, "p", &budget)
-		p.Steps = append(p.Steps, st)
-	}
+	// Two segments: rapid's slice lengths are skewed towards short, and element
+	// deletion (the useful shrink) works per slice.
+	g := rapid.Custom(genBanStep)
+	p := &C35Plan{Steps: rapid.SliceOfN(g, 1, 12).Draw(rt, "steps")}
+	p.Steps = append(p.Steps, rapid.SliceOfN(g, 0, 12).Draw(rt, "steps2")...)
+	clampSteps(p.Steps)
 	p.Tail = genSleepS(rt)
 	return p
 }
@@ -205,14 +219,8 @@ func runC35(p *C35Plan, r *simkit.Run) {
 	start := time.Now()
 	var elapsed time.Duration
 	ref := &banRef{}
-	budget := c35Budget
-	clamp := func(v uint32) uint32 { // keeps hand-edited plans inside the assumption
-		if uint64(v) > budget {
-			v = uint32(budget)
-		}
-		budget -= uint64(v)
-		return v
-	}
+	steps := append([]BanStep{}, p.Steps...)
+	clampSteps(steps) // keeps hand-edited plans inside the assumption too
 	now := int64(0)
 	decaySeen := false
 
@@ -273,9 +281,9 @@ func runC35(p *C35Plan, r *simkit.Run) {
 		}
 	}
 
-	for i := range p.Steps {
-		st := p.Steps[i]
-		tr, pe := clamp(st.T), clamp(st.P)
+	for i := range steps {
+		st := steps[i]
+		tr, pe := st.T, st.P
 		sleep(st.Sleep)
 		probes()
 		before, ok := read(i, "int", func(s banScore) uint32 { return s.Int() })
